@@ -273,6 +273,7 @@ func main() {
 	factsStreams(*repo, arch)
 	factsShared(*repo)
 	factsJailBody(arch)
+	factsUnpackDecision(arch)
 	emit("")
 	emit("end GA.Facts")
 	fmt.Print(out.String())
